@@ -44,6 +44,31 @@ def random_cases(rng, n):
     return out
 
 
+def c02_output_clauses(recs, w, f, xt, xtd, case, eff):
+    labels = None
+    # C02 on transform output
+    out = xt[f]; nn_in = case['X'][f].notna()
+    labels = [l for l in pd.unique(out[out.notna()])]
+    if eff['dropna']:
+        recs.append(('C02:transform#post.no_missing_output_when_dropna', bool(out.notna().all()), w, 'missing output with dropna=True', True))
+        denom = len(out)
+    else:
+        recs.append(('C02:transform#post.missing_preserved_when_not_dropna', bool((out.isna() == ~nn_in).all()), w, 'missing rows not preserved in place', True))
+        denom = int(nn_in.sum())
+    fr = out[out.notna()].value_counts() / max(denom, 1)
+    recs.append(('C02:transform#post.label_frequency_at_least_min_freq_mod', bool((fr >= eff['min_freq_mod']).all()), w, 'label frequencies %r < %r' % (fr.to_dict(), eff['min_freq_mod']), True))
+    recs.append(('C02:transform#post.at_most_max_n_mod_labels', len(labels) <= eff['max_n_mod'], w, '%d labels' % len(labels), True))
+    if xtd is not None:
+        outd = xtd[f]; dl = set(pd.unique(outd[outd.notna()])); tl = set(labels)
+        recs.append(('C02:transform#post.dev_same_label_set', dl == tl, w, 'dev labels %r != train labels %r' % (dl, tl), True))
+        dd = len(outd) if eff['dropna'] else int(case['X_dev'][f].notna().sum())
+        frd = outd[outd.notna()].value_counts() / max(dd, 1)
+        recs.append(('C02:transform#post.dev_label_frequency', bool((frd >= eff['min_freq_mod']).all()), w, 'dev frequencies %r' % (frd.to_dict(),), True))
+        rt = case['y'].groupby(out).mean(); rd = case['y_dev'].groupby(outd).mean()
+        if not oc.has_rate_tie(rt.tolist()) and not oc.has_rate_tie(rd.tolist()) and dl == tl:
+            recs.append(('C02:transform#post.dev_same_rate_ranking', list(rt.sort_values().index) == list(rd.sort_values().index), w, 'rank train %r dev %r' % (rt.to_dict(), rd.to_dict()), True))
+
+
 def one(arg):
     """-> list of records (clause, ok, witness, message, nontrivial)"""
     case, cfg = arg
@@ -78,6 +103,7 @@ def one(arg):
         except Exception as e:
             recs.append(('skip.oracle_error', True, None, str(e)[:100], False)); continue
         kept = f in carver.features
+        if kept: c02_output_clauses(recs, w, f, xt, xtd, case, eff)          # judged on every kept feature, whatever the oracle says
         if res['indeterminate']:
             recs.append(('skip.indeterminate_ranking_or_measure', True, None, '', False)); continue
         if res.get('stage2') is not None and not res.get('all_winners_agree', True):
@@ -117,27 +143,6 @@ def one(arg):
         okm = any(abs(ev['measure'] - m) <= 1e-9 * max(1, abs(m)) for m in bests) if not math.isnan(ev['measure']) else False
         recs.append(('C01:fit#post.measure_is_maximal_over_viable', okm, w,
                      'feature %s: fitted grouping %r has %s=%.12g, oracle optimum %r e.g. %r' % (f, groups, sort_by, ev['measure'], bests[:3], [g for _, g in res['best'][:1]]), True))
-        # C02 on transform output
-        out = xt[f]; nn_in = case['X'][f].notna()
-        labels = [l for l in pd.unique(out[out.notna()])]
-        if eff['dropna']:
-            recs.append(('C02:transform#post.no_missing_output_when_dropna', bool(out.notna().all()), w, 'missing output with dropna=True', True))
-            denom = len(out)
-        else:
-            recs.append(('C02:transform#post.missing_preserved_when_not_dropna', bool((out.isna() == ~nn_in).all()), w, 'missing rows not preserved in place', True))
-            denom = int(nn_in.sum())
-        fr = out[out.notna()].value_counts() / max(denom, 1)
-        recs.append(('C02:transform#post.label_frequency_at_least_min_freq_mod', bool((fr >= eff['min_freq_mod']).all()), w, 'label frequencies %r < %r' % (fr.to_dict(), eff['min_freq_mod']), True))
-        recs.append(('C02:transform#post.at_most_max_n_mod_labels', len(labels) <= eff['max_n_mod'], w, '%d labels' % len(labels), True))
-        if xtd is not None:
-            outd = xtd[f]; dl = set(pd.unique(outd[outd.notna()])); tl = set(labels)
-            recs.append(('C02:transform#post.dev_same_label_set', dl == tl, w, 'dev labels %r != train labels %r' % (dl, tl), True))
-            dd = len(outd) if eff['dropna'] else int(case['X_dev'][f].notna().sum())
-            frd = outd[outd.notna()].value_counts() / max(dd, 1)
-            recs.append(('C02:transform#post.dev_label_frequency', bool((frd >= eff['min_freq_mod']).all()), w, 'dev frequencies %r' % (frd.to_dict(),), True))
-            rt = case['y'].groupby(out).mean(); rd = case['y_dev'].groupby(outd).mean()
-            if not oc.has_rate_tie(rt.tolist()) and not oc.has_rate_tie(rd.tolist()) and dl == tl:
-                recs.append(('C02:transform#post.dev_same_rate_ranking', list(rt.sort_values().index) == list(rd.sort_values().index), w, 'rank train %r dev %r' % (rt.to_dict(), rd.to_dict()), True))
     return recs
 
 
